@@ -185,6 +185,9 @@ def _c20(prop, tier):
                     shapes = ["full", ("emptyBody", "nilBody", "nilHeaders", "allEmpty")[len(cases) % 4]] if c["fails"] >= 0 else ["full"]
                     for sh in shapes:
                         cases.append(dict(timeout=t * unit, max=m * unit, fails=c["fails"], init2=2000, resp=sh))
+    # one attempt that takes several delays' worth of time before it fails: the waits after it are full waits all the same
+    for c in [c for c in cases if c["max"] in (40, 120) and c["timeout"] >= 700 and c["fails"] in (-1, 3) and c["resp"] == "full"]:
+        cases.append(dict(c, slowFirst=3 * c["max"] + 15))
     for i, c in enumerate(cases):
         c["id"] = i + 1
     cp = _os.path.join(wd, "cases.jsonl")
